@@ -356,7 +356,28 @@ class FnTaint:
             adt = rv[1][4:].rsplit("::", 1)[0]
             if adt.startswith("std::") or adt.startswith("core::") or adt.startswith("alloc::"):
                 return
+            # (pointer, length) views: a length that was handed to the allocation call which produced the
+            # pointer stored next to it is consistent with that pointer by construction
+            consistent = set()
+            ptr_ops = [o for o in rv[2] if op_local(o) is not None and
+                       re.search(r"NonNull<|\*mut |\*const ", fn.ty(op_local(o)))]
+            if ptr_ops and self._cur_loc is not None:
+                alloc_roots = set()
+                for po in ptr_ops:
+                    _, sites = fn.backslice([op_local(po)], max_nodes=200)
+                    for loc2, kind2, pl2 in sites:
+                        if kind2 == "call":
+                            for a in pl2["a"]:
+                                la = op_local(a)
+                                if la is not None and scalar_like(fn.ty(la)):
+                                    alloc_roots |= self.roots.get(la, set())
+                for name, op in zip(rv[3], rv[2]):
+                    l = op_local(op)
+                    if l is not None and self.roots.get(l) and self.roots[l] <= alloc_roots:
+                        consistent.add(name)
             for name, op in zip(rv[3], rv[2]):
+                if name in consistent:
+                    continue
                 note(adt + "::" + name, op)
         else:
             flds = [e for e in dst[1:] if _named_field(e)]
@@ -1340,4 +1361,74 @@ def check_panics(ctx, fn, ft, rule="R-PANIC", report=True):
                 ctx.violation(rule, fn.id, "explicit panic after %s" % deciders[0].split("@")[0],
                               "a branch on untrusted input (%s) leads to %s: malformed bytes panic instead of "
                               "returning Err" % (deciders[0], f.rsplit("::", 1)[-1]), fn.file, c["ln"])
+    return n
+
+
+# ---------------------------------------------------------------------- R-ARITH
+ARITH_OPS = ("Add", "AddWithOverflow", "AddUnchecked", "Mul", "MulWithOverflow", "MulUnchecked", "Shl", "ShlUnchecked")
+
+
+def check_arith(ctx, fn, ft, rule="R-ARITH", report=True):
+    """a guard whose untrusted side is computed with wrapping/panicking arithmetic on a full-width
+    untrusted operand does not refuse huge values: it wraps (release) or panics (debug)"""
+    g = Guards(fn, ft)
+    n = 0
+    seen = set()
+    for b, groots, large, desc, op, cl in g.items:
+        if cl is None or op in ("Eq", "Ne") or op is None:
+            continue
+        # walk the definition chain of the compared value
+        work = [cl]
+        visited = set()
+        while work:
+            l = work.pop()
+            if l in visited or len(visited) > 40:
+                continue
+            visited.add(l)
+            for loc, kind, pl in fn.defs(l):
+                if kind != "assign" or len(pl[1]) != 1:
+                    continue
+                rv = pl[2]
+                if rv[0] == "bin" and rv[1] in ARITH_OPS:
+                    for o in (rv[2], rv[3]):
+                        r = ft.roots_at(loc, o)
+                        if r and ft.bits_of(o) >= 64 and min(ft.width_of(r), 64) >= 64:
+                            key = (loc, rv[1])
+                            if key in seen:
+                                continue
+                            seen.add(key)
+                            n += 1
+                            ol = op_local(o)
+                            ctx.obligation(rule, fn.id, "%s feeding %s" % (rv[1], desc), False,
+                                           sample={"fn": fn.id, "op": rv[1], "line": pl[3], "guard": desc,
+                                                   "operand": fn.local_name(ol) if ol is not None else "?"})
+                            if report:
+                                ctx.violation(rule, fn.id, "%s on %s before the bound check" %
+                                              (rv[1].replace("WithOverflow", ""), fn.local_name(ol) if ol is not None else "value"),
+                                              "the bound check %s compares a value computed with unchecked %s on the full-width "
+                                              "untrusted %s: a huge value wraps past the check (release) or panics (debug) instead "
+                                              "of being refused" % (desc, rv[1].replace("WithOverflow", ""),
+                                                                    fn.local_name(ol) if ol is not None else "operand"),
+                                              fn.file, pl[3])
+                    for o in (rv[2], rv[3]):
+                        ll = op_local(o)
+                        if ll is not None:
+                            work.append(ll)
+                elif rv[0] in ("use", "cast"):
+                    ll = op_local(rv[1] if rv[0] == "use" else rv[2])
+                    if ll is not None:
+                        work.append(ll)
+                elif rv[0] == "bin":
+                    for o in (rv[2], rv[3]):
+                        ll = op_local(o)
+                        if ll is not None:
+                            work.append(ll)
+                elif rv[0] == "use" and False:
+                    pass
+            # tuple field of a WithOverflow result: (_t.0)
+            for loc, kind, pl in fn.defs(l):
+                if kind == "assign" and pl[2][0] == "use":
+                    p = op_place(pl[2][1])
+                    if p and len(p) == 2 and p[1] == ".0":
+                        work.append(p[0])
     return n
